@@ -7,6 +7,8 @@
 //! * generic drivers that run an operation over all (pairs of) values of a case and print one
 //!   tab-separated observation line per execution:  R <case> <op> <i> <j> <result> <events>
 #![allow(clippy::all)]
+// under Miri (always a nightly toolchain) the recording hasher also overrides the unstable length-prefix hooks
+#![cfg_attr(miri, feature(hasher_prefixfree_extras))]
 use std::{
     cell::RefCell,
     cmp::Ordering,
@@ -693,6 +695,64 @@ pub fn clone_alt<X: Payload>(x: &X) -> X {
     x.clone_alt()
 }
 
+/// The custom methods again, as methods of traits that are named like the std traits: `::verif_rt::named::Hash::hash`
+/// is a custom method like any other (the field types implement the real `Hash` as well).
+pub mod named {
+    use super::Payload;
+    use std::cmp::Ordering;
+    use std::fmt;
+    use std::hash::Hasher;
+
+    pub trait Hash {
+        fn hash<H: Hasher>(&self, state: &mut H);
+    }
+    impl<X: Payload> Hash for X {
+        fn hash<H: Hasher>(&self, state: &mut H) {
+            super::hash_alt(self, state)
+        }
+    }
+    pub trait PartialEq {
+        fn eq(&self, other: &Self) -> bool;
+    }
+    impl<X: Payload> PartialEq for X {
+        fn eq(&self, other: &Self) -> bool {
+            super::eq_mod2(self, other)
+        }
+    }
+    pub trait Ord {
+        fn cmp(&self, other: &Self) -> Ordering;
+    }
+    impl<X: Payload> Ord for X {
+        fn cmp(&self, other: &Self) -> Ordering {
+            super::cmp_rev(self, other)
+        }
+    }
+    pub trait PartialOrd {
+        fn partial_cmp(&self, other: &Self) -> Option<Ordering>;
+    }
+    impl<X: Payload> PartialOrd for X {
+        fn partial_cmp(&self, other: &Self) -> Option<Ordering> {
+            super::pcmp_rev(self, other)
+        }
+    }
+    pub trait Debug {
+        fn fmt(&self, f: &mut fmt::Formatter<'_>) -> fmt::Result;
+    }
+    impl<X: Payload> Debug for X {
+        fn fmt(&self, f: &mut fmt::Formatter<'_>) -> fmt::Result {
+            super::fmt_alt(self, f)
+        }
+    }
+    pub trait Clone {
+        fn clone(&self) -> Self;
+    }
+    impl<X: Payload> Clone for X {
+        fn clone(&self) -> Self {
+            super::clone_alt(self)
+        }
+    }
+}
+
 pub fn into_u8_alt<X: Payload>(x: X) -> u8 {
     ev(format!("m_into_u8_alt:{}", pid(&x)));
     (x.a() as u8).wrapping_add(100)
@@ -852,6 +912,16 @@ impl Hasher for RecHasher {
 
     fn finish(&self) -> u64 {
         0
+    }
+
+    /// the hook through which slices announce their length (unstable: only compiled under Miri's nightly toolchain);
+    /// code that writes the length itself with `write_usize` is told apart from code that hashes a slice
+    #[cfg(miri)]
+    fn write_length_prefix(&mut self, len: usize) {
+        self.rec.push_str(&format!("len({});", len));
+        for b in len.to_ne_bytes() {
+            self.flat.push_str(&format!("{b:02x}"));
+        }
     }
 
     fn write(&mut self, bytes: &[u8]) {
